@@ -1,6 +1,7 @@
 package main
 
 import (
+	"encoding/json"
 	"flag"
 	"fmt"
 	"os"
@@ -55,6 +56,25 @@ func main() {
 			fmt.Printf("VIOLATION property=%s replay=%s\n", p, path)
 		}
 		os.Exit(1)
+	}
+	if *dump == "metas" {
+		b, _ := json.MarshalIndent(map[string]any{"metas": func() map[string]map[string]string {
+			o := map[string]map[string]string{}
+			for k, v := range propMetas {
+				var rules []string
+				for _, r := range allRules {
+					for _, p := range r.Props {
+						if p == k {
+							rules = append(rules, r.ID)
+						}
+					}
+				}
+				o[k] = map[string]string{"explanation": v.Explanation, "not_decided": v.NotDecided, "rules": strings.Join(rules, ", ")}
+			}
+			return o
+		}()}, "", " ")
+		fmt.Println(string(b))
+		return
 	}
 	if *dump == "atoms" {
 		dumpAtoms(e)
